@@ -30,11 +30,10 @@ def record_classes(tree: ast.Module) -> Dict[str, Tuple[List[str], Dict[str, ast
         if not isinstance(n, ast.ClassDef):
             continue
         is_nt = any((isinstance(b, ast.Name) and b.id == "NamedTuple") or (isinstance(b, ast.Attribute) and b.attr == "NamedTuple") for b in n.bases)
-        is_dc = any("dataclass" in ast.dump(d) for d in n.decorator_list)
+        is_dc = any(any(k in ast.dump(d) for k in ("dataclass", "define", "frozen", "attrs")) for d in n.decorator_list)
         if not (is_nt or is_dc):
             continue
-        if any(isinstance(x, (ast.FunctionDef, ast.AsyncFunctionDef)) for x in n.body):
-            continue  # records with behaviour are left alone
+        # methods are fine as long as the local is only used through its fields (checked per use)
         fields, defaults = [], {}
         for x in n.body:
             if isinstance(x, ast.AnnAssign) and isinstance(x.target, ast.Name):
@@ -707,4 +706,133 @@ def desugar(tree: ast.Module) -> int:
         if isinstance(fn, (ast.FunctionDef, ast.AsyncFunctionDef)):
             total += _hoist_walrus_in_list(fn.body)
             total += _suppress_to_try(fn.body)
+    return total
+
+
+# --------------------------------------------------------------------------
+# dispatch tables:  {K1: f1, K2: f2}[k](args)   ->   if k == K1: f1(args) elif k == K2: f2(args) else: raise KeyError(k)
+# --------------------------------------------------------------------------
+
+def _dispatch_tables(tree: ast.Module, fn: ast.AST) -> Dict[str, ast.Dict]:
+    """name -> dict literal whose values are all plain function names (module level or local, single definition)."""
+    out: Dict[str, ast.Dict] = {}
+    counts: Dict[str, int] = {}
+    for scope in (tree.body, [x for x in _walk_own(fn)]):
+        for st in scope:
+            if isinstance(st, (ast.Assign, ast.AnnAssign)):
+                tg = st.targets[0] if isinstance(st, ast.Assign) and len(st.targets) == 1 else getattr(st, "target", None)
+                v = st.value
+                if isinstance(tg, ast.Name):
+                    counts[tg.id] = counts.get(tg.id, 0) + 1
+                    if isinstance(v, ast.Dict) and v.keys and all(k is not None for k in v.keys) and all(isinstance(x, ast.Name) for x in v.values):
+                        out[tg.id] = v
+    return {k: v for k, v in out.items() if counts.get(k) == 1}
+
+
+def _table_of(e: ast.AST, tables) -> Optional[Tuple[ast.Dict, ast.AST, bool]]:
+    """(dict literal, key expression, strict?) when e is  TABLE[key] / TABLE.get(key)  over a dispatch table."""
+    if isinstance(e, ast.Subscript):
+        d = e.value if isinstance(e.value, ast.Dict) else (tables.get(e.value.id) if isinstance(e.value, ast.Name) else None)
+        if isinstance(d, ast.Dict) and d.keys and all(k is not None for k in d.keys) and all(isinstance(x, ast.Name) for x in d.values):
+            return d, e.slice, True
+    if isinstance(e, ast.Call) and isinstance(e.func, ast.Attribute) and e.func.attr == "get" and len(e.args) == 1 and not e.keywords:
+        d = e.func.value if isinstance(e.func.value, ast.Dict) else (tables.get(e.func.value.id) if isinstance(e.func.value, ast.Name) else None)
+        if isinstance(d, ast.Dict) and d.keys and all(k is not None for k in d.keys) and all(isinstance(x, ast.Name) for x in d.values):
+            return d, e.args[0], False
+    return None
+
+
+def _expand_dispatch_in_list(stmts: List[ast.stmt], tables, handlers: Dict[str, Tuple[ast.Dict, ast.AST, bool]]) -> int:
+    n = 0
+    i = 0
+    while i < len(stmts):
+        s = stmts[i]
+        if isinstance(s, (ast.FunctionDef, ast.AsyncFunctionDef, ast.ClassDef)):
+            i += 1
+            continue
+        # handler = TABLE[key]   (remember, and drop the assignment when it has a strict table)
+        if isinstance(s, ast.Assign) and len(s.targets) == 1 and isinstance(s.targets[0], ast.Name):
+            t = _table_of(s.value, tables)
+            if t is not None:
+                handlers[s.targets[0].id] = t
+        for fld in ("body", "orelse", "finalbody"):
+            sub = getattr(s, fld, None)
+            if isinstance(sub, list) and sub and isinstance(sub[0], ast.stmt):
+                n += _expand_dispatch_in_list(sub, tables, handlers)
+        if isinstance(s, ast.Try):
+            for h in s.handlers:
+                n += _expand_dispatch_in_list(h.body, tables, handlers)
+        # find one dispatching call in the statement's own header expressions
+        call = None
+        for e in _header_exprs(s):
+            for x in ast.walk(e):
+                if isinstance(x, ast.Call):
+                    t = _table_of(x.func, tables) or (handlers.get(x.func.id) if isinstance(x.func, ast.Name) else None)
+                    if t is not None:
+                        call, tab = x, t
+                        break
+            if call is not None:
+                break
+        if call is None or not isinstance(s, (ast.Expr, ast.Assign, ast.Return, ast.If, ast.AugAssign, ast.AnnAssign)):
+            i += 1
+            continue
+        d, key, strict = tab
+        # {True: f, False: g}[bool(c)]  ->  if c: f(...) else: g(...)
+        branches = []
+        for k, v in zip(d.keys, d.values):
+            branches.append((k, v))
+
+        def with_handler(h: ast.Name) -> ast.stmt:
+            new = copy.deepcopy(s)
+            for e in ast.walk(new):
+                if isinstance(e, ast.Call) and ast.dump(e) == ast.dump(call):
+                    e.func = ast.Name(id=h.id, ctx=ast.Load())
+                    break
+            return new
+
+        if isinstance(s, ast.If):
+            # evaluate the dispatched call into a temporary first
+            tmp = "_sv_disp"
+            asg = ast.Assign(targets=[ast.Name(id=tmp, ctx=ast.Store())], value=copy.deepcopy(call), type_comment=None)
+            ast.copy_location(asg, s)
+
+            class R(ast.NodeTransformer):
+                done = False
+
+                def visit_Call(self, c):
+                    if not self.done and ast.dump(c) == ast.dump(call):
+                        self.done = True
+                        return ast.copy_location(ast.Name(id=tmp, ctx=ast.Load()), c)
+                    return self.generic_visit(c)
+
+            s.test = R().visit(s.test)
+            ast.fix_missing_locations(asg)
+            stmts.insert(i, asg)
+            continue  # the inserted assignment is expanded on the next iteration
+        chain: Optional[ast.stmt] = None
+        is_bool = all(isinstance(k, ast.Constant) and isinstance(k.value, bool) for k, _v in branches) and len(branches) == 2
+        if is_bool:
+            kexpr = key.args[0] if isinstance(key, ast.Call) and isinstance(key.func, ast.Name) and key.func.id == "bool" and len(key.args) == 1 else key
+            tv = next(v for k, v in branches if k.value is True)
+            fv = next(v for k, v in branches if k.value is False)
+            chain = ast.If(test=copy.deepcopy(kexpr), body=[with_handler(tv)], orelse=[with_handler(fv)])
+        else:
+            tail: List[ast.stmt] = [ast.Raise(exc=ast.Call(func=ast.Name(id="KeyError", ctx=ast.Load()), args=[copy.deepcopy(key)], keywords=[]), cause=None)] if strict else [ast.Pass()]
+            for k, v in reversed(branches):
+                chain = ast.If(test=ast.Compare(left=copy.deepcopy(key), ops=[ast.Eq()], comparators=[copy.deepcopy(k)]), body=[with_handler(v)], orelse=tail)
+                tail = [chain]
+        ast.copy_location(chain, s)
+        ast.fix_missing_locations(chain)
+        stmts[i] = chain
+        n += 1
+        i += 1
+    return n
+
+
+def expand_dispatch(tree: ast.Module) -> int:
+    total = 0
+    for fn in ast.walk(tree):
+        if isinstance(fn, (ast.FunctionDef, ast.AsyncFunctionDef)):
+            tables = _dispatch_tables(tree, fn)
+            total += _expand_dispatch_in_list(fn.body, tables, {})
     return total
